@@ -3,6 +3,7 @@ import NauyacaVerif.Fs.StaticFx
 import NauyacaVerif.Fs.TreeOS
 import NauyacaVerif.Fs.CanonProof
 import NauyacaVerif.Fs.GenStatic
+import NauyacaVerif.Fs.TreeNoLink
 import NauyacaVerif.Gen.Params
 
 /-! # C02  Static serving never escapes the document root
@@ -145,6 +146,26 @@ theorem static_complete (os : OS) (cfg : SCfg) (names : List Cps) (id : Nat)
     rw [canonSegs_encoded keep hk37 hka names hclean hs]
     exact complete_os os cfg _ id hres hk hsz hrd
 
+/-- the same on the executable symlink tree the driver runs (the OS hypotheses discharged from
+    the tree): if every proper prefix of `root/n₁/…/nₖ` is a directory of the tree, no component is
+    a symlink, the names are ordinary and the node is a regular UTF-8 file within the size limit,
+    both spellings serve it.  (`< 200` components: the fuel of the realpath port.) -/
+theorem static_complete_tree (t : Tree) (metas : List FileMeta) (cfg : SCfg) (names : List Cps) (id : Nat)
+    (hclean : ∀ s ∈ names, Clean s)
+    (hlen : (cfg.root ++ names.map toName).length < 200)
+    (ho : ∀ n ∈ cfg.root ++ names.map toName, Ordinary n)
+    (hnul : ∀ n ∈ cfg.root ++ names.map toName, nameHasNul n = false)
+    (hp : Plain t [] (cfg.root ++ names.map toName) (.file id))
+    (hu : (metaOf metas id).utf8 = true) (hsz : (metaOf metas id).size ≤ cfg.maxSize) :
+    ((∀ s ∈ names, 37 ∉ s) →
+      serveUrl (treeOS t metas) cfg (47 :: joinSlash names) = .file (cfg.root ++ names.map toName) id) ∧
+    (∀ keep : Nat → Bool, keep 37 = false → (∀ b, keep b = true → b < 128) →
+      (∀ s ∈ names, ∀ c ∈ s, scalar c = true) →
+      serveUrl (treeOS t metas) cfg (47 :: joinSlash (names.map (encName keep))) =
+        .file (cfg.root ++ names.map toName) id) := by
+  obtain ⟨h1, h2, h3, h4⟩ := treeOS_plain t metas _ id hlen ho hnul hp
+  exact static_complete (treeOS t metas) cfg names id hclean h1 h2 (by rw [h3]; exact hsz) (h4 hu)
+
 /-- RFC 3986 `unreserved` is an admissible choice of literal bytes -/
 theorem unreserved_ok : unreserved 37 = false ∧ ∀ b, unreserved b = true → b < 128 := by
   refine ⟨by decide, ?_⟩
@@ -201,6 +222,10 @@ example : handle linkOS demoCfg ["evil", "secret"] false = .notFound := by decid
 example : handle linkOS demoCfg ["in"] false = .file ["root", "a b.gmi"] 2 := by decide
 example : (handleFx linkOS demoCfg ["in"] false).2 = [["root", "a b.gmi"]] := by decide
 example : (handleFx linkOS demoCfg ["evil", "secret"] false).2 = [] := by decide
+example : Plain demoTree [] ["root", "a b.gmi"] (.file 2) := by
+  refine ⟨by decide, by decide, ⟨.dir, by decide, by intro _ h; cases h⟩, by decide, by decide, ⟨.file 2, by decide, by intro _ h; cases h⟩, ?_⟩
+  show demoTree.lstat ["root", "a b.gmi"] = some (.file 2)
+  decide
 example : pctDecode (pctEncode unreserved [97, 32, 98, 37, 255]) = [97, 32, 98, 37, 255] := by decide
 example : encName unreserved [97, 32, 233] = [97, 37, 50, 48, 37, 67, 51, 37, 65, 57] := by decide
 end NauyacaVerif.C02
